@@ -188,6 +188,57 @@ func (c *Ctx) buildModAnalysis() {
 			}
 		}
 	}
+	// string tables: a table whose elements are assigned through its own name (T[i] = .., sort.X(T))
+	// outside package initialisers does not keep its elements
+	c.writtenTables = map[string]bool{}
+	var rootGlobal func(v ssa.Value, d int) *ssa.Global
+	rootGlobal = func(v ssa.Value, d int) *ssa.Global {
+		if d > 6 {
+			return nil
+		}
+		switch x := v.(type) {
+		case *ssa.Global:
+			return x
+		case *ssa.UnOp:
+			return rootGlobal(x.X, d+1)
+		case *ssa.ChangeType:
+			return rootGlobal(x.X, d+1)
+		case *ssa.Convert:
+			return rootGlobal(x.X, d+1)
+		case *ssa.Slice:
+			return rootGlobal(x.X, d+1)
+		case *ssa.MakeInterface:
+			return rootGlobal(x.X, d+1)
+		case *ssa.IndexAddr:
+			return rootGlobal(x.X, d+1)
+		}
+		return nil
+	}
+	for _, fn := range fns {
+		if fn.Name() == "init" || strings.HasPrefix(fn.Name(), "init#") {
+			continue
+		}
+		for _, b := range fn.Blocks {
+			for _, in := range b.Instrs {
+				switch x := in.(type) {
+				case *ssa.Store:
+					if ia, ok := x.Addr.(*ssa.IndexAddr); ok {
+						if g := rootGlobal(ia, 0); g != nil {
+							c.writtenTables[g.String()] = true
+						}
+					}
+				case ssa.CallInstruction:
+					if sc := x.Common().StaticCallee(); sc != nil && isSortPkgFunc(sc) {
+						for _, a := range x.Common().Args {
+							if g := rootGlobal(a, 0); g != nil {
+								c.writtenTables[g.String()] = true
+							}
+						}
+					}
+				}
+			}
+		}
+	}
 	// fixpoint
 	for iter := 0; iter < 50; iter++ {
 		changed := false
